@@ -9,6 +9,12 @@ Families (exhaustive over what they enumerate):
          one side ending where the other continues, tails {[], X, Y} on either
          side, routes incl. unaligned string suffixes (unify_partial_string)
   nums   numbers of every class and encoding
+  octail a variable T (bare, or inside g(T) / g(T,c)) against a string S whose
+         TAIL is T, f(T), [1|T], [f(x)|T], [1|"xy"||T] or an unrelated Y, S
+         realised through 10 routes (literal [a,b|T], partial_string/3,
+         segmented, string->list-cell, atom_chars+append/3, unaligned suffix,
+         copy_term, assert, explicit cells); both argument orders; main goal
+         (=)/2 and unify_with_occurs_check/2
 Per case one goal: side observations (\\=, unify_with_occurs_check, = under
 occurs_check=true / error; all under \\+ \\+) and the main unification whose
 bindings of (X,Y,Z,W) are transported.  Oracle: vx.model.unify.
@@ -99,7 +105,48 @@ def shards(tier):
     nn = len(_C13.num_alphabet())
     for i in range(0, nn, 10):
         sh.append(("nums", i, min(nn, i + 10)))
+    for c in range(len(OT_CONTENTS)):
+        for tl in OT_TAILS:
+            sh.append(("octail", c, tl))
     return sh
+
+
+OT_CONTENTS = ["a", "abc", "\u00e9b", "aaaaaaa", "aaaaaaaa"]
+OT_TAILS = ["T", "fT", "numT", "fxT", "strT", "Y"]
+OT_ROUTES = ["lit", "chars", "seg", "segl", "app", "sfx1", "sfx3", "copy", "asrt", "univ"]
+
+
+def ot_tail(name):
+    Tv = V("T")
+    return {"T": Tv, "fT": ("f", Tv), "numT": mklist([1], Tv), "fxT": mklist([("f", "x")], Tv),
+            "strT": mklist([1], T.str_term("xy", Tv)), "Y": V("Y")}[name]
+
+
+def ot_realise(content, tail, route, prefix):
+    """S = content + tail through a string route -> (pre, txt) or None"""
+    t = T.str_term(content, ot_tail(tail))
+    ctx = T.Ctx(prefix)
+    if route in ("lit", "chars", "seg", "sfx1", "sfx3", "copy", "asrt", "univ"):
+        if route == "seg" and len(content) < 2:
+            return None
+        return T.render(t, route, ctx)
+    pre = []
+    if route == "app":
+        # atom_chars + append/3: the front is copied into list cells by append/3
+        l0, v = ctx.fresh(), ctx.fresh()
+        pre.append("atom_chars(%s,%s)" % (T.atom_text(content), l0))
+        pre.append("append(%s,%s,%s)" % (l0, T._lit(ot_tail(tail), ctx, pre), v))
+        return pre, v
+    if route == "segl":
+        # a partial string whose tail is an explicit list cell holding a character
+        if len(content) < 2:
+            return None
+        v, tv = ctx.fresh(), ctx.fresh()
+        pre.append("partial_string(%s,%s,%s)" % (T.quote_string(content[:-1]), v, tv))
+        rt = T._build(T.str_term(content[-1:], ot_tail(tail)), ctx, pre, "univ")
+        pre.append("%s = %s" % (tv, rt))
+        return pre, v
+    raise KeyError(route)
 
 
 def hole_shapes():
@@ -108,8 +155,8 @@ def hole_shapes():
 
 
 def goal_text(pa, ta, pb, tb, mode):
-    return "g((" + ",".join(pa + pb + ["c10_pre(%s,%s,P)" % (ta, tb), "W = W",
-                                        "c10_u(%s,%s,%s,E)" % (mode, ta, tb)]) + "))"
+    return "g((" + ",".join(pa + pb + ["c10_pre(%s,%s,P)" % (ta, tb), "vx_obs(P)", "W = W",
+                                        "c10_u(%s,%s,%s,E)" % (mode, ta, tb), "vx_obs(E)"]) + "))"
 
 
 def gen(shard, tier):
@@ -166,6 +213,31 @@ def gen(shard, tier):
                 for (rb, pb, tb) in vb:
                     yield ({"fam": "pstr", "a": T.tj(a), "b": T.tj(b), "ra": ra, "rb": rb, "mode": mode},
                            goal_text(pa, ta, pb, tb, mode), a, b, mode, True)
+    elif kind == "octail":
+        _, ci, tl = shard
+        content = OT_CONTENTS[ci]
+        Sabs = T.str_term(content, ot_tail(tl))
+        Tv = V("T")
+        for route in OT_ROUTES:
+            r = ot_realise(content, tl, route, "_B")
+            if r is None:
+                continue
+            pre, st = r
+            # the variable (or a structure holding it) against the string (or a structure holding it), both orders
+            for (wrapname, wl, wr) in (("direct", lambda x: x, lambda x: x), ("g", lambda x: "g(%s)" % x, lambda x: "g(%s)" % x),
+                                       ("gf", lambda x: "g(%s,c)" % x, lambda x: "g(%s,c)" % x)):
+                la = Tv if wrapname == "direct" else (("g", Tv) if wrapname == "g" else ("g", Tv, "c"))
+                ra = Sabs if wrapname == "direct" else (("g", Sabs) if wrapname == "g" else ("g", Sabs, "c"))
+                for mode in ("u", "oc"):
+                    for order in (0, 1):
+                        if order == 0:
+                            g = goal_text([], wl("T"), pre, wr(st), mode)
+                            a, b = la, ra
+                        else:
+                            g = goal_text(pre, wr(st), [], wl("T"), mode)
+                            a, b = ra, la
+                        yield ({"fam": "octail", "content": content, "tail": tl, "route": route, "wrap": wrapname, "order": order,
+                                "mode": mode}, g, a, b, mode, True)
     elif kind == "nums":
         _, lo, hi = shard
         A = _C13.num_alphabet()
@@ -201,13 +273,14 @@ def judge(res, a, b, mode):
     if zero_pair:
         return "zeros", None, expd, "-"
     # --- side observations
-    p = sol.get("P")
-    e = sol.get("E")
-    cyclic_transport = "E" not in sol        # the driver prints a cyclic record as 'y;'
-    if cyclic_transport:
-        if cls != "cyclic" or mode == "oc":
-            return "unexpected_cyclic", "unexpected_cyclic_result", expd, "cyclic record"
-        return "cyclic_ok", None, expd, "cyclic record"
+    # P and E come in their own O records: the S record is not expanded when a binding is cyclic,
+    # and the side observations must be judged for exactly those cases too
+    if len(res.obs) != 2:
+        return "no_result", "no_result:%d observation records" % len(res.obs), expd, repr(res.obs)[:200]
+    p, e = res.obs
+    cyclic_transport = "W" not in sol        # the driver prints a cyclic record as 'y;'
+    if cyclic_transport and (cls != "cyclic" or mode == "oc"):
+        return "unexpected_cyclic", "unexpected_cyclic_result", expd, "cyclic record"
     if not (isinstance(p, tuple) and p[0] == "p" and len(p) == 5):
         return "no_result", "no_result:bad P", expd, repr(p)
     NE, OC, FT, FE = p[1:]
@@ -242,6 +315,8 @@ def judge(res, a, b, mode):
         if not U.variant(used, got):
             return "binding_after_failure", "binding_after_failure", U_show(used), U_show(got)
         return "fail:" + cls + ("/err" if fe_err else ""), None, expd, obs
+    if cyclic_transport:
+        return "cyclic_ok", None, expd, obs
     # success: (X,Y,Z,W) must be a variant of the reference mgu applied to it
     used = ("t",) + tuple(v for v in TUP[1:] if v.n in sol)
     got = ("t",) + tuple(sol[v.n] for v in TUP[1:] if v.n in sol)
@@ -268,6 +343,9 @@ def U_show(t):
 
 
 def sig_of(case, vk, a, b):
+    if case["fam"] == "octail":
+        return "octail tail=%s route=%s wrap=%s order=%d mode=%s: %s" % (case["tail"], case["route"], case["wrap"], case["order"],
+                                                                       case["mode"], vk)
     if case["fam"] == "pstr":
         sa, _ = T.char_run(a)
         sb, _ = T.char_run(b)
@@ -298,6 +376,12 @@ def run_shard(w, shard, tier):
 
 def rebuild(case):
     mode = case.get("mode", "u")
+    if case["fam"] == "octail":
+        ci = OT_CONTENTS.index(case["content"])
+        for (c, g, a, b, m, nt) in gen(("octail", ci, case["tail"]), "quick"):
+            if all(c[k] == case[k] for k in ("route", "wrap", "order", "mode")):
+                return g, a, b, m
+        raise KeyError("octail case not found")
     if case["fam"] == "nums":
         A = _C13.num_alphabet()
         (v1, e1), (v2, e2) = A[case["i"]], A[case["j"]]
